@@ -1,5 +1,159 @@
 package main
 
-import "math/rand"
+// (c) the write queue of nbio.Conn (conn_unix.go: newToWriteBuf / releaseToWrite / flush / close) takes its buffers from
+// Config.BodyAllocator of the nbio engine. A real engine over loopback TCP: the server side writes far more than the
+// socket buffers take (so the tail is queued, coalesced with Append, flushed piecewise), the peer reads slowly,
+// everything, or nothing; the server closes with or without a backlog.
+// Oracles: the allocator discipline, and what the peer received is a prefix of (or exactly) what was written and
+// contains no freed / never-written memory.
+import (
+	"bytes"
+	"fmt"
+	"io"
+	"math/rand"
+	"net"
+	"time"
 
-func nbconnCase(h *H, r *rand.Rand, idx int) {}
+	"github.com/lesismal/nbio"
+	"verifharness/hx"
+)
+
+func nbconnCase(h *H, r *rand.Rand, idx int) {
+	mode := r.Intn(3)
+	slack := []int{0, 1, 64}[r.Intn(3)]
+	al := NewAlloc(mode, slack)
+	install(al)
+	// what the server writes
+	var chunks [][]byte
+	total := 0
+	add := func(sz int) {
+		chunks = append(chunks, pat(sz, byte(idx*16+len(chunks))))
+		total += sz
+	}
+	// first enough to fill the socket buffers, then a mix with runs of small writes (coalesced into the queue's tail)
+	for i := 0; i < 4+r.Intn(3); i++ {
+		add(1<<20 + r.Intn(1000))
+	}
+	n := 6 + r.Intn(12)
+	for i := 0; i < n; i++ {
+		switch r.Intn(6) {
+		case 0, 1:
+			for j := 0; j < 2+r.Intn(6); j++ {
+				add(1 + r.Intn(3000))
+			}
+		case 2:
+			add(65536 - 2 + r.Intn(5))
+		case 3:
+			add(1<<20 + r.Intn(1000))
+		case 4:
+			add(30000 + r.Intn(10000))
+		default:
+			add(200000 + r.Intn(400000))
+		}
+	}
+	closeMode := []string{"after-read", "with-backlog", "peer-closes-early"}[idx%3]
+	useWritev := r.Intn(2) == 0
+	epoll := []uint32{nbio.EPOLLLT, nbio.EPOLLET}[r.Intn(2)]
+	replay := map[string]interface{}{"harness": "bufown", "scenario": "nbconn", "seed": h.seed, "index": idx, "allocator": modeNames[mode],
+		"slack": slack, "chunks": lens(chunks), "close": closeMode, "epoll_et": epoll == nbio.EPOLLET, "writev": useWritev}
+
+	g := nbio.NewEngine(nbio.Config{Network: "tcp", Addrs: []string{"127.0.0.1:0"}, NPoller: 1, BodyAllocator: al, EpollMod: epoll})
+	closed := make(chan struct{}, 4)
+	written := make(chan struct{}, 1)
+	g.OnOpen(func(c *nbio.Conn) {
+		for i := 0; i < len(chunks); i++ {
+			var err error
+			if useWritev && i+2 < len(chunks) && i%3 == 0 {
+				_, err = c.Writev([][]byte{chunks[i], chunks[i+1], chunks[i+2]})
+				i += 2
+			} else {
+				_, err = c.Write(chunks[i])
+			}
+			if err != nil {
+				break
+			}
+		}
+		if closeMode == "with-backlog" {
+			_ = c.Close()
+		}
+		written <- struct{}{}
+	})
+	var srv *nbio.Conn
+	g.OnData(func(c *nbio.Conn, data []byte) { srv = c })
+	g.OnClose(func(c *nbio.Conn, err error) { closed <- struct{}{} })
+	if err := g.Start(); err != nil {
+		h.rep.Stat("nbconn.engine-start-failed")
+		return
+	}
+	cli, err := net.Dial("tcp", g.Addrs[0])
+	if err != nil {
+		g.Stop()
+		h.rep.Stat("nbconn.dial-failed")
+		return
+	}
+	select {
+	case <-written:
+	case <-time.After(5 * time.Second):
+	}
+	var got []byte
+	switch closeMode {
+	case "peer-closes-early":
+		buf := make([]byte, 1000+r.Intn(100000))
+		k, _ := io.ReadFull(cli, buf)
+		got = buf[:k]
+		_ = cli.Close()
+	default:
+		buf := make([]byte, 1+r.Intn(200000))
+		_ = cli.SetReadDeadline(time.Now().Add(10 * time.Second))
+		for len(got) < total {
+			k, err := cli.Read(buf)
+			got = append(got, buf[:k]...)
+			if err != nil {
+				break
+			}
+		}
+		_ = cli.Close()
+	}
+	select {
+	case <-closed:
+	case <-time.After(5 * time.Second):
+		h.rep.Stat("nbconn.no-close-callback")
+	}
+	_ = srv
+	g.Stop()
+
+	want := bytes.Join(chunks, nil)
+	h.rep.Case(fmt.Sprintf("nbconn/%v/%s/%s", lens(chunks), closeMode, modeNames[mode]), true)
+	h.rep.Ops += len(chunks)
+	h.rep.Stat("nbconn.close=" + closeMode)
+	h.rep.Stat("nbconn.alloc=" + modeNames[mode])
+	if len(got) > len(want) || !bytes.Equal(got, want[:len(got)]) {
+		kind := "corrupt"
+		if runOf(got, poison) >= 8 {
+			kind = "poison"
+		} else if runOf(got, garbage) >= 8 {
+			kind = "garbage"
+		}
+		if kind != "corrupt" {
+			h.rep.Add(hx.Finding{Kind: "oracle", Property: "C11", Signature: kind + "-on-wire-nbconn",
+				What: fmt.Sprintf("the peer received %d bytes that are not a prefix of the %d written: first difference at %d; the stream contains freed / never-written pool memory", len(got), len(want), firstDiff(got, want)), Replay: replay})
+		} else {
+			h.rep.Stat("nbconn.stream-differs-without-poison")
+		}
+	}
+	if closeMode == "after-read" && len(got) != len(want) {
+		h.rep.Stat("nbconn.short-stream")
+	}
+	h.finish(al, "nbconn", replay)
+	if idx < 1 {
+		h.rep.Sample(map[string]interface{}{"scenario": "nbconn", "chunks": lens(chunks), "close": closeMode, "received": len(got), "events": len(al.events)})
+	}
+}
+
+func lens(bs [][]byte) []int {
+	var l []int
+	for _, b := range bs {
+		l = append(l, len(b))
+	}
+	return l
+}
